@@ -132,7 +132,10 @@ fn same_bytes(tag: &str, what: &str, a: &[u8], b: &[u8]) -> R {
 }
 
 fn choice_is(tag: &str, got: ColorChoice, want: ColorChoice) -> R {
-    if got != want {
+    // "the mode reported is the one in force": on this platform Always and AlwaysAnsi are the same mode (pass-through);
+    // which of the two names a pass-through stream reports is not constrained
+    let same_mode = |a: ColorChoice, b: ColorChoice| a == b || (matches!(a, ColorChoice::Always | ColorChoice::AlwaysAnsi) && matches!(b, ColorChoice::Always | ColorChoice::AlwaysAnsi));
+    if !same_mode(got, want) {
         return Err((format!("c08:{tag}:current_choice"), format!("current_choice() = {got:?}, expected {want:?}")));
     }
     Ok(())
